@@ -598,8 +598,8 @@ int main(int argc, char** argv)
     }
 
     suite_t suite("C11");
-    // weights = share of the case budget (1 : 3): cfg/C11.py gives `exhaustive` 3 300 >= 20 x 160 cases (one uniformly drawn chunk per case)
+    // weights = share of the case budget (1 : 9): cfg/C11.py gives `exhaustive` 3 300 of 33 000 >= 20 x 160 cases (one uniformly drawn chunk per case)
     suite.add<xcase_t>("exhaustive", gen_xcase, check_xcase, 1.0);
-    suite.add<rcase_t>("random", gen_rcase, check_rcase, 3.0);
+    suite.add<rcase_t>("random", gen_rcase, check_rcase, 9.0);
     return suite.main(static_cast<int>(args.size()), args.data());
 }
